@@ -1328,3 +1328,8 @@ fn domain_from_str() {
         ]))
     );
 }
+
+#[cfg(feature = "isomer_erbium_verif")]
+mod isomer_erbium_verif {
+    include!(concat!(env!("ISOMER_ERBIUM_VERIF_DIR"), "/dns_dnspkt.rs"));
+}
